@@ -40,7 +40,10 @@ claim("C16","muxsim","exploration",
 claim("C18","muxsim","fault_enumeration",
  "SOCKS readers/writers polled against a scripted byte stream: reference-grammar requests under seeded chunkings with trailing bytes, cut at every byte offset x {EOF, error, left open} (sweep family), reply writers under partial/failed writes, UDP relay header build/parse against an independent RFC 1928 parser.",
  "Addresses compared by value; SOCKS4 0.0.0.0 / 0.x.y.z not judged. The UDP header round trip and parse are pure functions checked alongside because the statement lists them.", "deterministic simulation with fault injection on the byte-stream seam (scripted AsyncRead/AsyncBufRead/AsyncWrite), cut-offset enumeration", "DESIGN.md §6 C18")
-for p in ["C01","C12","C14","C19"]:
+claim("C12","loomsim","exploration",
+ "108 scenarios (initial credit x writer polls x scripted acknowledge/close orders) each explored exhaustively by loom's DFS over all interleavings of the atomic operations and all C11-permitted load values, up to the preemption bound; oracles: no lost wake-up, credit conservation, no permission without credit, None after close.",
+ "Exhaustive per scenario up to loom's preemption bound (3 quick / 5 thorough), two threads; the rest of the connection task is replaced by the scripted calls on the other thread.", "controlled-scheduler simulation of threads (loom) over the crate's own sync seam; replay = scenario + loom's deterministic DFS", "DESIGN.md §6 C12")
+for p in ["C01","C14","C19"]:
     na(p, "check not built yet in this session (planned, see DESIGN.md §6); not claimed until its command exists")
 na("C09","pure codec function of one complete buffer (quantifier: inputs only): no schedule, clock, fault or interleaving for a simulator to decide; see DESIGN.md §6 C09")
 na("C17","outcome is a function of the TLS configuration cell alone; handshake randomness has no seam, so one seed cannot be one repeatable execution; see DESIGN.md §6 C17")
